@@ -167,10 +167,18 @@ func runC13(tier string, seed uint64, rep *Report) {
 		n, depth = 40000, 6
 	}
 	unary := []string{"vec", "rest", "seq", "count", "first", "empty?"}
+	// leaves of the compositions: sets with more than one member are left out, (vec s) / (seq s) of such a set
+	// follow Go's map iteration order
+	var uc []types.MalType
+	for _, v := range u {
+		if _, isSet := v.(types.Set); !isSet || !multi(v) {
+			uc = append(uc, v)
+		}
+	}
 	var comp func(d int) types.MalType
 	comp = func(d int) types.MalType {
 		if d == 0 {
-			return qd(u[r.Intn(len(u))])
+			return qd(uc[r.Intn(len(uc))])
 		}
 		switch r.Intn(10) {
 		case 0:
